@@ -278,7 +278,9 @@ func (ex *Exec) callFunction(fr *Frame, in ssa.Instruction, fn *ssa.Function, ar
 			if c, ok := callArg(in, 1).(*ssa.Const); ok && c.Value != nil {
 				label = strings.Trim(c.Value.ExactString(), "\"")
 			}
-			ex.addObl(st, "assert", label, args[0].(*Term), ex.pos(in))
+			if !(strings.HasPrefix(label, "slow_") && !ex.eng.thorough) {
+				ex.addObl(st, "assert", label, args[0].(*Term), ex.pos(in))
+			}
 			st.Assume(args[0].(*Term))
 			cont(st, fr, nil)
 			return
@@ -306,7 +308,16 @@ func (ex *Exec) callFunction(fr *Frame, in ssa.Instruction, fn *ssa.Function, ar
 		cont(st, fr, res)
 		return
 	}
-	if ct := ex.eng.contractFor(fn); ct != nil && !ct.Inline && !(fn == ex.root && fr.depth == 0 && in == nil) {
+	forceInline := false
+	if rct := ex.eng.contractFor(ex.root); rct != nil && len(rct.Inlines) > 0 {
+		sn := shortFn(fn)
+		for _, pat := range rct.Inlines {
+			if pat == sn || (strings.HasSuffix(pat, "*") && strings.HasPrefix(sn, strings.TrimSuffix(pat, "*"))) {
+				forceInline = true
+			}
+		}
+	}
+	if ct := ex.eng.contractFor(fn); ct != nil && !ct.Inline && !forceInline && !(fn == ex.root && fr.depth == 0 && in == nil) {
 		ex.usedCtr[name] = true
 		ex.applyContract(fr, in, ct, fn, args, st, cont)
 		return
@@ -413,16 +424,28 @@ func (ex *Exec) applyContractVals(fr *Frame, in ssa.Instruction, ct *Contract, c
 	}
 	old := st.Clone()
 	// havoc frame
+	rs := sig.Results()
+	nNew := int64(rs.Len())
+	if nNew == 0 && len(ct.Modifies) > 0 {
+		nNew = 1 // callees may allocate what they store into their frame
+	}
+	st.havocUB = *st.nextRg + nNew
 	for _, m := range ct.Modifies {
 		ex.havocSpec(m, env, st, ct)
 	}
+	st.havocUB = 0
 	// results
 	base := *st.nextRg
-	rs := sig.Results()
 	var results []Value
+	if rs.Len() == 0 && len(ct.Modifies) > 0 {
+		*st.nextRg++
+	}
 	for k := 0; k < rs.Len(); k++ {
 		*st.nextRg++
 		results = append(results, st.SymValue(rs.At(k).Type(), fmt.Sprintf("%s.ret%d", short, k), *st.nextRg))
+	}
+	if *st.nextRg > base {
+		st.foreign = append(st.foreign, [2]int64{base, *st.nextRg})
 	}
 	env2 := &SpecEnv{ex: ex, vars: paramBindings(sig, args, recvT), st: st, old: old, pkg: pkg, mode: "assume", freshBase: base}
 	bindResults(env2.vars, sig, results)
@@ -538,7 +561,16 @@ func (ex *Exec) havocRegion(st *State, a *Term) {
 
 func (ex *Exec) havocLeaves(st *State, t types.Type, a *Term) {
 	forEachLeaf(t, a, func(s Sort, la *Term) {
-		st.storeScalar(s, la, FreshVar("havoc", s))
+		v := FreshVar("havoc", s)
+		if s == SAddr {
+			// an unknown pointer written by the callee / loop body refers to memory that exists when it returns
+			ub := *st.nextRg
+			if st.havocUB > ub {
+				ub = st.havocUB
+			}
+			st.Assume(IntCmp("<=", Rg(v), IntConst(ub)))
+		}
+		st.storeScalar(s, la, v)
 	})
 }
 
@@ -705,6 +737,7 @@ func (ex *Exec) atLoopHead(fr *Frame, b *ssa.BasicBlock, prev *ssa.BasicBlock, s
 	// havoc loop-carried values (header phis) and declared memory
 	base := *st.nextRg
 	*st.nextRg = base + iterGap
+	st.foreign = append(st.foreign, [2]int64{base, base + iterGap})
 	for _, in := range b.Instrs {
 		phi, ok := in.(*ssa.Phi)
 		if !ok {
